@@ -649,7 +649,8 @@ Section Publish.
                                           | Some l => al_set neqb g pf (l ++ [x])
                                           | None => al_set neqb g pf [x] end in
                            let g := match msg_ship with
-                                    | Some sh => if onat_eqb (fit_fleet w pf) msg_fleet then add g (pr, [Some sh]) else g
+                                    | Some sh => if onat_eqb (fit_fleet w pf) msg_fleet && negb (Nat.eqb pf f)
+                                                then add g (pr, [Some sh]) else g
                                     | None => g end in
                            let g := if Nat.eqb pf f then
                                       match msg_fleet with
